@@ -151,3 +151,24 @@ package transport
 //@   pure
 //@   nopanic
 //@   ensures result == (hdr == ":authority" || hdr == "user-agent")
+
+// ---- C58: per-RPC credentials that require transport security ---------------------
+
+//@ import context "context"
+//@ import credentials "google.golang.org/grpc/credentials"
+//@ import codes "google.golang.org/grpc/codes"
+
+//@ spec func riAuth(ctx context.Context) credentials.AuthInfo {
+//@   ri, _ := credentials.RequestInfoFromContext(ctx)
+//@   return ri.AuthInfo
+//@ }
+
+// The credential is asked for its metadata only if it does not require
+// transport security, or the transport is secure and the connection's security
+// level satisfies PrivacyAndIntegrity; otherwise the call fails with
+// UNAUTHENTICATED before the credential is consulted.
+//@ func (*http2Client).getCallAuthData
+//@   prop C58
+//@   assert at call CheckSecurityLevel#1 arg1 == credentials.PrivacyAndIntegrity && arg0 == riAuth(ctx)
+//@   assert at call Error#1 arg0 == codes.Unauthenticated && callCreds.RequireTransportSecurity() && (!t.isSecure || !credentials.SpecLevelOK(riAuth(ctx), credentials.PrivacyAndIntegrity))
+//@   assert at call GetRequestMetadata#1 implies(callCreds.RequireTransportSecurity(), t.isSecure && credentials.SpecLevelOK(riAuth(ctx), credentials.PrivacyAndIntegrity))
